@@ -453,7 +453,8 @@ PROPS = {
     },
     "C13": {
         "modules": [],
-        "extra": [{"kind": "venv", "name": "frame-checker", "script": "tools/frame_check.py", "args": ["--prop", "C13"]}],
+        "extra": [{"kind": "venv", "name": "frame-checker", "script": "tools/frame_check.py", "args": ["--prop", "C13"]},
+                  {"kind": "venv", "name": "frame-checker-query-tree", "script": "tools/frame_check.py", "args": ["--prop", "C15"]}],
         "claim_level": "other",
         "design_ref": "6.13",
         "technique": "contract-based: frame / effect checker (modifies clauses over the real call graph, tools/frame.py) "
@@ -468,6 +469,7 @@ PROPS = {
             "contract proved in C02 (listed under allowed_sites)",
         ],
         "clauses_not_decided": [
+            "(the prepared-query tree is covered: the tree-mode frame obligations of C15 are part of this check) "
             "'the same read twice gives the same answer' beyond purity: determinism of hidden caches "
             "(NamespaceManager caches, Literal value caches) is assumed; covered by the bounded run only",
             "dynamic dispatch outside the class-hierarchy/method-name resolution (getattr, plugins other than the "
